@@ -305,13 +305,13 @@ def snap(sol):
     return [np.array(v, copy=True) for v in sol()]
 
 
-def changed(s0, s1, tol=1e-12):
+def changed(s0, s1, tol=1e-12, nan_counts=True):
     for p, q in zip(s0, s1):
         if p.shape != q.shape:
             return True, np.inf
         d = nrm(q - p)
-        if d > tol * max(1.0, nrm(p)):
-            return True, d
+        if (nan_counts and not np.isfinite(d)) or d > tol * max(1.0, nrm(p)):
+            return True, d                  # (a solution turned NaN / inf has changed)
     return False, 0.0
 
 
@@ -342,7 +342,7 @@ def run_loop(case):
             moved = 0.0
             for extra in range(2):
                 alg.update()
-                ch, d = changed(s0, snap(sol))
+                ch, d = changed(s0, snap(sol), nan_counts=(extra == 0))
                 moved = max(moved, d)
                 if ch:
                     return violated(sig, "%s stopped after %d of max_iter=%d updates with "
@@ -400,7 +400,7 @@ def run_bigloop(case):
         s0 = snap(sol)
         for extra in range(2):
             alg.update()
-            ch, dmove = changed(s0, snap(sol))
+            ch, dmove = changed(s0, snap(sol), nan_counts=(extra == 0))
             if ch:
                 return violated(sig, "%s stopped after %d of max_iter=%d updates with tol=0 on "
                                 "%d unknowns of which only %d (%s) still move, but a further "
@@ -569,7 +569,7 @@ def run_app(case):
             s0 = [np.array(v, copy=True) for v in hold]
             for extra in range(2):
                 top.update()
-                ch, d = changed(s0, hold)
+                ch, d = changed(s0, hold, nan_counts=(extra == 0))
                 if ch:
                     return violated(sig, "%s stopped after %d of %d updates with tol=0 but a "
                                     "further update moves the solution by %.3g" % (
@@ -676,7 +676,7 @@ def run_fista_stall(case):
         s0 = [x.copy()]
         for extra in range(2):
             alg.update()
-            ch, d = changed(s0, [x])
+            ch, d = changed(s0, [x], nan_counts=(extra == 0))
             if ch:
                 return violated(sig, "accelerated GradientMethod with a box stopped after %d of "
                                 "max_iter=%d updates with tol=0, but further update %d moves x "
